@@ -295,6 +295,7 @@ func runParserProp(pp *pProp, tier string) int {
 			"simulated_time":          "no wall clock in the parser; logical time = expression ticks and instrumentation steps",
 			"fault_kinds":             fk,
 			"violations_before_dedup": nviol,
+			"unclaimed_divergence":    stats["unclaimed_divergence"] + stats["unclaimed_divergence_statistics_twin"] + stats["unclaimed_divergence_unoptimized_twin"],
 			"known_findings_seen":     rep.known,
 			"race_build":              pp.race,
 			"instrumentation":         map[string]any{"map_range_sites": len(pw.rewrite.Sites), "steps_inserted": pw.rewrite.Steps, "sync_imports_replaced": pw.rewrite.SyncImports, "debug_prints_redirected": pw.rewrite.FmtPrints},
